@@ -80,6 +80,7 @@ def merge_into(rec: Rec, res: dict) -> None:
         if len(rec.samples) < 4:
             rec.samples.append(s)
     rec.notes += res.get("notes", [])
+    rec.instances.update(res.get("instances", []))
 
 
 def explore(model, depth: int, rec: Rec, cfg: dict, procs: int = 1, max_states: int | None = None, deadline_s: float | None = None):
